@@ -31,7 +31,7 @@ def requirements(tier):
     return {"min_counters": {"op_+": 5000 * k, "op_*": 3000 * k, "op_-": 1000 * k, "op_/": 1000 * k, "hourly_misaligned_checked": 800 * k,
                              "incompatible_dimension_pairs": 300 * k, "empty_neutral_checked": 300 * k, "empty_absorbing_checked": 300 * k,
                              "commutativity_checked": 1000 * k, "sum_law_checked": 300 * k, "op_np_compared_with": 300 * k,
-                             "op_shift": 200 * k, "op_ceil": 200 * k, "op_round": 200 * k, "internal_calls_in_system_workloads": 2000},
+                             "op_shift": 200 * k, "op_ceil": 200 * k, "op_round": 200 * k, "copy_independence_checked": 2000 * k, "internal_calls_in_system_workloads": 2000},
             "required_classes": ["pairs", "system", "tz_aware", "naive", "disjoint_index", "gapped_index", "same_span_different_gaps"]}
 
 
@@ -78,7 +78,7 @@ def attempt(f):
 
 def run_pairs(case, rnd, E):
     classes = {"pairs"}
-    C = {"commutativity_checked": 0, "sum_law_checked": 0, "pairs": 0}
+    C = {"commutativity_checked": 0, "sum_law_checked": 0, "pairs": 0, "copy_independence_checked": 0}
     V = []
     descs = []
     nt = False
@@ -140,6 +140,34 @@ def run_pairs(case, rnd, E):
                 attempt(lambda: x.to(E.u(rnd.choice([u1, u2])).units))
             elif isinstance(x, E.ExplainableQuantity):
                 attempt(lambda: x.ceil()); attempt(lambda: x.copy()); attempt(lambda: round(x, rnd.choice([0, 2, 4])))
+        for x in (a, b):
+            # copy() gives an independent value: the in-place helpers (round(n), to(unit)) applied to the copy leave the copied
+            # operand's physical value alone, and the other way round
+            if isinstance(x, E.ExplainableHourlyQuantities) and len(x.value):
+                y = E.ExplainableHourlyQuantities(x.value.copy(deep=True), "throwaway twin")
+                before = observe.vrepr(y)
+                c, e = attempt(lambda: y.copy())
+                if e is None:
+                    C["copy_independence_checked"] += 1
+                    k = rnd.choice([0, 1])
+                    attempt(lambda: c.round(k)); attempt(lambda: c.to(E.u(next(p for p in UNITS if str(x.unit) in (str(E.u(p[0]).units), str(E.u(p[1]).units)))[0]).units))
+                    if not observe.close(observe.vrepr(y), before, rtol=1e-12):
+                        V.append({"kind": "in-place rounding / conversion of a copy changed the copied operand", "operand": da if x is a else db})
+                    c2, e = attempt(lambda: y.copy())
+                    if e is None:
+                        snap = observe.vrepr(c2)
+                        attempt(lambda: y.round(0))
+                        if not observe.close(observe.vrepr(c2), snap, rtol=1e-12):
+                            V.append({"kind": "in-place rounding of the operand after copy() changed the copy", "operand": da if x is a else db})
+            elif isinstance(x, E.ExplainableQuantity):
+                y = E.ExplainableQuantity(x.value.magnitude * x.value.units, "throwaway twin")
+                before = observe.vrepr(y)
+                c, e = attempt(lambda: y.copy())
+                if e is None:
+                    C["copy_independence_checked"] += 1
+                    attempt(lambda: c.to(E.u(next(p for p in UNITS if str(x.value.units) in (str(E.u(p[0]).units), str(E.u(p[1]).units)))[0]).units))
+                    if not observe.close(observe.vrepr(y), before, rtol=1e-15):
+                        V.append({"kind": "in-place conversion of a copy changed the copied operand", "operand": da if x is a else db})
         if ha or isinstance(a, E.EmptyExplainableObject):
             if hb or isinstance(b, E.EmptyExplainableObject):
                 cmp_ = rnd.choice(["max", "min"])
